@@ -2,7 +2,7 @@
 ;; needs-type []primitives.MemberWeight
 ;; needs-type []interfaces.CommitteeMember
 ;; needs-type []primitives.MemberId
-;; provides nn SumA SumMA
+;; provides nn SumA SumMA SWP InIds MemPred
 (define-fun nn ((x Int)) Int (ite (< x 0) 0 x))
 (define-fun-rec SumA ((a (Array Int Int)) (n Int)) Int
   (ite (<= n 0) 0 (+ (SumA a (- n 1)) (nn (select a (- n 1))))))
@@ -12,11 +12,29 @@
   (ite (<= n 0) 0 (+ (SumMA a (- n 1)) (nn (f_S_interfaces_CommitteeMember_Weight (select a (- n 1)))))))
 ;; spec SumMW (Slice_S_interfaces_CommitteeMember Int) Int
 (define-fun SumMW ((s Slice_S_interfaces_CommitteeMember) (n Int)) Int (SumMA (el_Slice_S_interfaces_CommitteeMember s) n))
+; f = floor((W-1)/3) with f(0) = 0 ; Q = W - f with Q(0) = 1
 ;; spec Fz (Int) Int
 (define-fun Fz ((w Int)) Int (ite (<= w 0) 0 (div (- w 1) 3)))
 ;; spec Qz (Int) Int
 (define-fun Qz ((w Int)) Int (ite (<= w 0) 1 (- w (Fz w))))
-; lemma-axioms (each proved by induction in specs/lemmas/quorum_*.smt2, re-checked on every run)
+; weight of the members whose index satisfies predicate p
+(define-fun-rec SWP ((p (Array Int Bool)) (a (Array Int S_interfaces_CommitteeMember)) (n Int)) Int
+  (ite (<= n 0) 0 (+ (SWP p a (- n 1)) (ite (select p (- n 1)) (nn (f_S_interfaces_CommitteeMember_Weight (select a (- n 1)))) 0))))
+; x is the content of one of the ids
+;; spec InIds (Slice_BS Str) Bool
+(define-fun InIds ((ids Slice_BS) (x Str)) Bool
+  (exists ((j Int)) (and (<= 0 j) (< j (len_Slice_BS ids)) (= (bs_c (select (el_Slice_BS ids) j)) x))))
+(declare-fun MemPred (Slice_BS (Array Int S_interfaces_CommitteeMember)) (Array Int Bool))
+(assert (forall ((ids Slice_BS) (a (Array Int S_interfaces_CommitteeMember)) (i Int))
+  (! (= (select (MemPred ids a) i) (InIds ids (bs_c (f_S_interfaces_CommitteeMember_Id (select a i))))) :pattern ((select (MemPred ids a) i)))))
+; SW(ids, members, n): combined weight of the first n members whose id occurs in ids (duplicates and outsiders add nothing)
+;; spec SW (Slice_BS Slice_S_interfaces_CommitteeMember Int) Int
+(define-fun SW ((ids Slice_BS) (s Slice_S_interfaces_CommitteeMember) (n Int)) Int
+  (SWP (MemPred ids (el_Slice_S_interfaces_CommitteeMember s)) (el_Slice_S_interfaces_CommitteeMember s) n))
+;; section quorum_axioms
+;; provides SumA SumMA SWP
+; lemma-axioms: each is proved by induction in specs/lemmas/quorum_sums.smt2 (re-checked on every C06 run)
 (assert (forall ((a (Array Int Int)) (i Int) (n Int)) (! (=> (and (<= 0 i) (<= i n)) (<= (SumA a i) (SumA a n))) :pattern ((SumA a i) (SumA a n)))))
 (assert (forall ((a (Array Int Int)) (i Int) (v Int) (n Int)) (! (=> (<= n i) (= (SumA (store a i v) n) (SumA a n))) :pattern ((SumA (store a i v) n)))))
 (assert (forall ((a (Array Int S_interfaces_CommitteeMember)) (i Int) (n Int)) (! (=> (and (<= 0 i) (<= i n)) (<= (SumMA a i) (SumMA a n))) :pattern ((SumMA a i) (SumMA a n)))))
+(assert (forall ((p (Array Int Bool)) (a (Array Int S_interfaces_CommitteeMember)) (n Int)) (! (and (<= 0 (SWP p a n)) (<= (SWP p a n) (SumMA a n))) :pattern ((SWP p a n)))))
